@@ -94,6 +94,23 @@ def make_list(rng, pool, with_ew):
     return pws
 
 
+def tie_list(rng, pool):
+    """an exact probability tie between the two parents of one pre-terminal: word counts a:b and digit counts a:b inside one
+    structure (nothing else in the list touches those two tables), so P(w1) * P(d2) == P(w2) * P(d1); the child of the tied
+    parents must still be emitted, exactly once"""
+    words = list(POOLS[pool]['words'])
+    same_len = [(x, y) for x in words for y in words if x < y and len(x) == len(y)]
+    w1, w2 = rng.choice(same_len) if same_len else (words[0], words[0][::-1])
+    a, b = rng.choice([(3, 1), (7, 1), (3, 1), (15, 1)])     # dyadic probabilities: the two float products are exactly equal
+    d1, d2 = rng.choice([('347', '582'), ('11', '22'), ('7', '8')])
+    pws = [w1 + d1] * (a * a) + [w1 + d2] * (a * b) + [w2 + d1] * (b * a) + [w2 + d2] * (b * b)
+    if rng.random() < 0.5:
+        pws = [p.capitalize() if rng.random() < 0.4 else p for p in pws]       # masks tie with words / digits as well
+    pws += rng.sample(['!!', '!', '#', ' x ', '9', '0'], 2)
+    rng.shuffle(pws)
+    return pws
+
+
 def invertible_case(pw):
     for c in pw:
         if c.istitle() and not c.isupper():
@@ -232,9 +249,17 @@ def lang_trace(tid, res, pws, meta, desc):
     guesses = set()
     total = 0.0
     n_guess = 0
-    for b, pt in expand.all_pts(pcfg):
+    # "generating from the resulting ruleset": the real priority queue run to exhaustion, each popped pre-terminal expanded
+    hist = ptq.run_history(pcfg, [], with_queue=False, max_pops=60000)
+    if hist.get('raised') or not hist['exhausted']:
+        if hist.get('raised'):
+            meta[tid] = dict(desc, supported=len(supported), error='the guesser raised: %s' % hist.get('raised'), missing=supported[:5])
+            return {'tid': tid, 'kind': 'lang', 'supported': [1], 'guesses': [0], 'sum_ok': False}
+        return None
+    for it, _ in hist['sessions'][0]['ev']:
+        pt = it['pt']
         lines, n = expand.expand_real(pcfg, pt)
-        p = b['prob']
+        p = it['base_prob']
         for t, i in pt:
             p *= pcfg.grammar[t][i]['prob']
         total += p * n
@@ -268,6 +293,8 @@ def main(pid, tier, seed):
         ngram = rng.choice([2, 3, 4])
         asz = rng.choice([10, 100])
         pws = make_list(rng, pool, with_ew=(pool == 'ascii' and rng.random() < 0.6))
+        if k == 1:
+            pws = tie_list(rng, pool)
         if k == 0 and pid == 'C06':
             # unsupported structures dominate
             pws = ['bob@aol.com'] * 4 + ['www.google.com12', 'x@y.org1', 'pass'] + ['a.b@gmail.com!'] * 2
